@@ -629,21 +629,75 @@ func parenTransparencyRule(c *Ctx, rule, key string, f *ssa.Function, kind strin
 			}
 		}
 	}
-	looks, unwraps := false, false
+	looks, unwraps := false, true
 	var pos token.Pos
+	hasParenAssert := func(g *ssa.Function) bool {
+		for _, b := range g.Blocks {
+			for _, in := range b.Instrs {
+				if ta, ok := in.(*ssa.TypeAssert); ok && p.TypeStr(ta.AssertedType) == "*ParenExpr" {
+					return true
+				}
+			}
+		}
+		return false
+	}
+	// unwrapped: the value tested was first taken out of any parentheses
+	var unwrapped func(v ssa.Value, d int) bool
+	unwrapped = func(v ssa.Value, d int) bool {
+		if d > 6 {
+			return false
+		}
+		switch x := v.(type) {
+		case *ssa.Call:
+			if cal := x.Call.StaticCallee(); cal != nil && cal.Pkg == f.Pkg && len(cal.Blocks) > 0 {
+				if hasParenAssert(cal) {
+					return true
+				}
+				for _, b := range cal.Blocks {
+					for _, in := range b.Instrs {
+						if c2, ok := in.(*ssa.Call); ok {
+							if cal2 := c2.Call.StaticCallee(); cal2 != nil && cal2.Pkg == f.Pkg && len(cal2.Blocks) > 0 && hasParenAssert(cal2) {
+								return true
+							}
+						}
+					}
+				}
+			}
+		case *ssa.Phi:
+			for _, e := range x.Edges {
+				if unwrapped(e, d+1) {
+					return true
+				}
+			}
+		case *ssa.UnOp:
+			return unwrapped(x.X, d+1)
+		case *ssa.FieldAddr:
+			return unwrapped(x.X, d+1)
+		case *ssa.Extract:
+			return unwrapped(x.Tuple, d+1)
+		case *ssa.TypeAssert:
+			return p.TypeStr(x.AssertedType) == "*ParenExpr" || unwrapped(x.X, d+1)
+		}
+		return false
+	}
 	for _, g := range fns {
 		for _, b := range g.Blocks {
 			for _, in := range b.Instrs {
-				if ta, ok := in.(*ssa.TypeAssert); ok {
-					switch p.TypeStr(ta.AssertedType) {
-					case kind:
-						looks = true
-						if pos == 0 {
-							pos = ta.Pos()
-						}
-					case "*ParenExpr":
-						unwraps = true
+				ta, ok := in.(*ssa.TypeAssert)
+				if !ok || p.TypeStr(ta.AssertedType) != kind {
+					continue
+				}
+				looks = true
+				if pos == 0 {
+					pos = ta.Pos()
+				}
+				if !unwrapped(ta.X, 0) {
+					if _, isParam := ta.X.(*ssa.Parameter); isParam && g != f {
+						// a helper's parameter: the caller may have unwrapped it
+						continue
 					}
+					unwraps = false
+					pos = ta.Pos()
 				}
 			}
 		}
